@@ -471,17 +471,23 @@ After1(s, c) == IF Appliable(s, c) THEN ApplyChange(s, c) ELSE <<>>
 ReqKindsSeq == {"hover", "definition", "references", "highlight", "completion", "signatureHelp", "prepareRename",
                 "rename", "semFull", "semRange", "semRangeRev", "syntaxTree"}
 
-Messages ==
-  LET S(d) == TextOr(d) IN
-       {Msg("open", d, 0, <<Ch(TRUE, P0, P0, t)>>, P0, "") : d \in Docs, t \in Texts}
-  \cup {Msg("close", d, 0, <<>>, P0, "") : d \in Docs}
-  \cup UNION {{Msg("change", d, 0, <<c>>, P0, "") : c \in ChangesFor(d)} : d \in Docs}
-  \cup UNION {UNION {{Msg("change", d, 0, <<c, c2>>, P0, "") : c2 \in Change2(After1(S(d), c))}
-                     : c \in {x \in ChangesFor(d) : x.full \/ x.t = <<"a">>}} : d \in Docs}
-  \cup UNION {{Msg("req", d, nextId, <<>>, p, rk) : p \in PosCands(S(d)), rk \in ReqKindsSeq} : d \in Docs}
-  \cup {Msg(k, d, 0, <<>>, P0, "") : k \in {"wdel", "wchg", "save", "fsdel"}, d \in Docs}
-  \cup {Msg(k, "", 0, <<>>, P0, "") : k \in {"cancel", "dollar", "config"}}
-  \cup (IF ThirdPartyFatal THEN {Msg("fatal", "", 0, <<>>, P0, rk) : rk \in {"badparams", "unknown", "initialized2"}} ELSE {})
+DocKinds == {"open", "close", "change", "req", "wdel", "wchg", "save", "fsdel"}
+MsgsOf(k, d) ==
+  CASE k = "open" -> {Msg("open", d, 0, <<Ch(TRUE, P0, P0, t)>>, P0, "") : t \in Texts}
+    [] k = "change" ->
+            {Msg("change", d, 0, <<c>>, P0, "") : c \in ChangesFor(d)}
+       \cup UNION {{Msg("change", d, 0, <<c, c2>>, P0, "") : c2 \in Change2(After1(TextOr(d), c))}
+                   : c \in {x \in ChangesFor(d) : x.full \/ x.t = <<"a">>}}
+    [] k = "req" -> {Msg("req", d, nextId, <<>>, p, rk) : p \in PosCands(TextOr(d)), rk \in ReqKindsSeq}
+    [] k \in {"cancel", "dollar", "config"} -> {Msg(k, "", 0, <<>>, P0, "")}
+    [] k = "fatal" -> {Msg("fatal", "", 0, <<>>, P0, rk) : rk \in {"badparams", "unknown", "initialized2"}}
+    [] OTHER -> {Msg(k, d, 0, <<>>, P0, "")}
+Messages == UNION {MsgsOf(k, d) : k \in DocKinds, d \in Docs}
+            \cup UNION {MsgsOf(k, "") : k \in {"cancel", "dollar", "config"} \cup (IF ThirdPartyFatal THEN {"fatal"} ELSE {})}
+\* simulation: kind drawn with weights, document biased towards those the server holds
+KindSeq == <<"open", "open", "close", "change", "change", "change", "change", "change", "req", "req", "req",
+             "wdel", "wchg", "save", "fsdel", "cancel", "dollar", "config">>
+Held == {d \in Docs : vfsText[d] # Absent}
 
 Prefix == <<Msg("open", "d1", 0, <<Ch(TRUE, P0, P0, <<"a", "nl", "c4", "c2">>)>>, P0, "")>>
 Obs == [alive |-> alive, text |-> vfsText, opened |-> opened]
@@ -493,9 +499,9 @@ C_Script ==
   /\ ~Conc /\ alive /\ Quiescent /\ Len(hist) < ScriptLen
   /\ \E m \in (IF Len(hist) < Len(Prefix) THEN {Prefix[Len(hist) + 1]}
                ELSE IF Gen = "sim"
-               THEN LET k == RandomElement({"open", "close", "change", "change", "change", "req", "wdel", "wchg", "save",
-                                            "fsdel", "cancel", "dollar"})
-                    IN {RandomElement(Kind(Messages, k))}
+               THEN LET k == KindSeq[RandomElement(1..Len(KindSeq))]
+                        d == IF Held # {} /\ RandomElement(1..4) > 1 THEN RandomElement(Held) ELSE RandomElement(Docs)
+                    IN {RandomElement(MsgsOf(k, d))}
                ELSE Messages) :
        /\ (m.k = "req" => nextId <= MaxReqs)
        /\ IF m.k = "fsdel"
